@@ -9,6 +9,9 @@
                 loop of Rollback re-creates the records of the un-confirmed transactions from the mined credit table
                 (amount / class / script hash of C01's books) is NOT proved: `HOKc` asks for the relation after each
                 disconnect step as an explicit hypothesis.
+  (Round 6: the disconnect step IS proved — MW/Lemmas/PendHistCredRollback.lean, `disconnect_cred`; `HOKf` there is the
+   domain without that hypothesis and `hinvc_run_full` the history theorem.  `HOKc` / `hinvc_run` are kept: every history
+   inside `HOKf` is inside `HOKc`, `hokc_of_full`.)
 -/
 import MW.Lemmas.PendHistCredConnect
 namespace MW.Lemmas.PendHist.Cred
@@ -36,7 +39,7 @@ theorem RecvDomC.full {rank : TxId → Nat} {E : HEnv} {w : HW} {t : Tx} (D : Re
 def HOKc (rank : TxId → Nat) (E : HEnv) (w : HW) : HEv → Prop
   | .recv t => RecvDomC rank E w t
   | .disconnect => HOK rank E w .disconnect ∧
-      CredRel E.env (stepH E w .disconnect).s (stepH E w .disconnect).sp.pend    -- OPEN: see the header
+      CredRel E.env (stepH E w .disconnect).s (stepH E w .disconnect).sp.pend    -- a theorem since Round 6: see the header
   | ev => HOK rank E w ev
 
 structure HInvC (rank : TxId → Nat) (E : HEnv) (w : HW) : Prop where
